@@ -763,6 +763,20 @@ def backfillLoop : Nat → CSP → CSP → Nat → M Unit
       backfillLoop fuel hole backfill remaining
     else pure ()
 
+/-- one iteration of the back-fill loop on the loop state `(backfill, hole, remaining)` -/
+def backfillStep (x : CSP × CSP × Nat) : M (CSP × CSP × Nat) := do
+  let ah ← x.2.1.availableLen
+  let ab ← x.1.availableLen
+  let copyLen := min (min ah ab) x.2.2
+  let src ← x.1.ptr
+  let dst ← x.2.1.ptr
+  let b ← getBuf
+  setItems (copy b.items src dst copyLen)
+  let hole ← x.2.1.add copyLen
+  let backfill ← x.1.add copyLen
+  let remaining ← liftE (usub x.2.2 copyLen)
+  pure (backfill, hole, remaining)
+
 /-- `Drop for Drain` -/
 def Drain.drop (d : Drain) : M Unit := do
   let (right, left) ← d.asSlices
